@@ -141,18 +141,37 @@ def handle (req : Json) : Except String Json := do
     let xs ← ratList (← field req "xs")
     return obj [("variance", ratToJson (variance xs)), ("sd", ratToJson (sdApprox xs))]
   let kind ← str (← field req "kind")
-  let u ← opt nat (fieldD req "using" Json.null)
   let c ← ctxsOfJson kind (← field req "rows")
+  -- a keyword that is absent from the request was not passed to the Python call
+  let absent (k : String) : Bool := match req.getObjVal? k with | .ok _ => false | .error _ => true
+  let uA : Option (Option Nat) ← (if absent "using" then pure none else do pure (some (← opt nat (← field req "using"))))
+  let viaEnv := (match req.getObjVal? "via" with | .ok (.str "env") => true | _ => false)
   match op with
   | "scale" =>
-    let cfg : Cfg := { shift := (← shiftOfJson (← field req "shift")), scale := (← sclOfJson (← field req "scale")), usingN := u }
-    match scaleCtxs sdApprox cfg c with
-    | .ok out => pure (obj [("model", ctxsToJson out), ("fits", fitsOf cfg c)])
-    | .error _ => pure (obj [("model", obj [("err", Json.str "CobaException")])])
+    let shA : Option Shift ← (if absent "shift" then pure none else do pure (some (← shiftOfJson (← field req "shift"))))
+    let scA : Option Scl ← (if absent "scale" then pure none else do pure (some (← sclOfJson (← field req "scale"))))
+    let tsA : Option (List String) ← (if absent "targets" then pure none else do pure (some (← strList (← field req "targets"))))
+    let args : ScaleArgs := ⟨shA, scA, tsA, uA⟩
+    let filters : List ScaleCfg := if viaEnv then envScaleFilters args else [scaleCtorCfg args]
+    let res := if viaEnv then envScale sdApprox args c else scaleFilter sdApprox (scaleCtorCfg args) c
+    let cfgJ := ofList (fun (k : ScaleCfg) => obj [
+        ("shift", match k.cfg.shift with | .num a => ratToJson a | .min => Json.str "min" | .mean => Json.str "mean" | .median => Json.str "median"),
+        ("scale", match k.cfg.scale with | .num b => ratToJson b | .minmax => Json.str "minmax" | .std => Json.str "std" | .iqr => Json.str "iqr" | .maxabs => Json.str "maxabs"),
+        ("using", ofOpt ofNat k.cfg.usingN), ("target", Json.str k.target)]) filters
+    let cfg0 : Cfg := match filters with | k :: _ => k.cfg | [] => ⟨.num 0, .num 1, none⟩
+    match res with
+    | .ok out => pure (obj [("model", ctxsToJson out), ("fits", fitsOf cfg0 c), ("cfgs", cfgJ)])
+    | .error _ => pure (obj [("model", obj [("err", Json.str "CobaException")]), ("cfgs", cfgJ)])
   | "impute" =>
-    let stats ← (← arr (← field req "stats")).mapM statOfJson
-    let ind ← bool (← field req "ind")
-    pure (obj [("model", ctxsToJson (envImpute stats ind u c))])
+    let stA : Option (List Stat) ← (if absent "stats" then pure none else do pure (some (← (← arr (← field req "stats")).mapM statOfJson)))
+    let indA : Option Bool ← (if absent "ind" then pure none else do pure (some (← bool (← field req "ind"))))
+    let filters := envImputeFilters ⟨stA, indA, uA⟩
+    let cfgJ := ofList (fun (k : Stat × Bool × Option Nat) => obj [
+        ("stat", Json.str (match k.1 with | .mean => "mean" | .median => "median" | .mode => "mode")),
+        ("ind", Json.bool k.2.1), ("using", ofOpt ofNat k.2.2)]) filters
+    match pipe imputeF filters (.ok c) with
+    | .ok out => pure (obj [("model", ctxsToJson out), ("cfgs", cfgJ)])
+    | .error _ => pure (obj [("model", obj [("err", Json.str "CobaException")]), ("cfgs", cfgJ)])
   | _ => throw s!"unknown op {op}"
 
 end Coba.C11.Driver
